@@ -64,6 +64,34 @@ func genWS(cfg Config, emit func(string, bool, []string)) {
 			emit("ws clear-and-refill", true, ops)
 			continue
 		}
+		if c%25 == 7 {
+			// an idle Wait (it ends by its context, nothing closed), then the set changes ONLY through
+			// Merge (no Add, no Clear), one of the merged channels closes: the next Wait returns it
+			k := 1 + r.IntN(3)
+			nch = k + 3
+			add("chans %d", nch)
+			var first []string
+			for i := 0; i < k; i++ {
+				first = append(first, strconv.Itoa(i))
+			}
+			add("add %s", strings.Join(first, ","))
+			add("wait %d %d", []int{0, 50}[r.IntN(2)], 30+r.IntN(40))
+			add("hasall")
+			if r.IntN(2) == 0 {
+				add("wait 0 %d", 100+r.IntN(20)) // a second idle Wait over the unchanged set
+			}
+			add("merge %s", []string{fmt.Sprintf("%d", k), fmt.Sprintf("%d,%d", k, k+1), fmt.Sprintf("%d,%d,%d", k, k+1, k+2)}[r.IntN(3)])
+			add("hasall")
+			add("closeat %d %d", k, 200+r.IntN(50))
+			add("wait %d %d", []int{0, 50}[r.IntN(2)], 600+r.IntN(50))
+			add("hasall")
+			add("merge %d", k)
+			add("closeat 0 %d", 700+r.IntN(20))
+			add("wait 0 %d", 900+r.IntN(50))
+			add("hasall")
+			emit("ws idle-wait-then-merge", true, ops)
+			continue
+		}
 		if c%5 == 4 {
 			// a channel that was returned (and removed) is added again after a Merge restored the set's
 			// size: the second Add must take effect
